@@ -735,14 +735,14 @@ func (po *PinOptions) ToQuery() (string, error) {
 func (po *PinOptions) FromQuery(q url.Values) error {
 	po.Name = q.Get("name")
 
-	po.Mode = PinModeFromString(q.Get("mode"))
-
-	rplStr := q.Get("replication")
-	if rplStr != "" { // override
-		q.Set("replication-min", rplStr)
-		q.Set("replication-max", rplStr)
+	switch mode := q.Get("mode"); mode {
+	case "", "recursive", "direct":
+		po.Mode = PinModeFromString(mode)
+	default:
+		return errors.New("parameter mode is invalid")
 	}
 
+	// Every value given must parse, also those overridden below.
 	err := parseIntParam(q, "replication-min", &po.ReplicationFactorMin)
 	if err != nil {
 		return err
@@ -751,6 +751,17 @@ func (po *PinOptions) FromQuery(q url.Values) error {
 	err = parseIntParam(q, "replication-max", &po.ReplicationFactorMax)
 	if err != nil {
 		return err
+	}
+
+	rplStr := q.Get("replication")
+	if rplStr != "" { // override
+		q.Set("replication-min", rplStr)
+		q.Set("replication-max", rplStr)
+		err = parseIntParam(q, "replication-min", &po.ReplicationFactorMin)
+		if err != nil {
+			return err
+		}
+		po.ReplicationFactorMax = po.ReplicationFactorMin
 	}
 
 	if v := q.Get("shard-size"); v != "" {
@@ -762,7 +773,23 @@ func (po *PinOptions) FromQuery(q url.Values) error {
 	}
 
 	if allocs := q.Get("user-allocations"); allocs != "" {
-		po.UserAllocations = StringsToPeers(strings.Split(allocs, ","))
+		allocStrs := strings.Split(allocs, ",")
+		po.UserAllocations = StringsToPeers(allocStrs)
+		if len(po.UserAllocations) != len(allocStrs) {
+			return errors.New("parameter user-allocations is invalid")
+		}
+	}
+
+	var expireIn time.Duration
+	if v := q.Get("expire-in"); v != "" {
+		d, err := time.ParseDuration(v)
+		if err != nil {
+			return errors.Wrap(err, "expire-in cannot be parsed")
+		}
+		if d < time.Second {
+			return errors.New("expire-in duration too short")
+		}
+		expireIn = d
 	}
 
 	if v := q.Get("expire-at"); v != "" {
@@ -772,15 +799,8 @@ func (po *PinOptions) FromQuery(q url.Values) error {
 			return errors.Wrap(err, "expire-at cannot be parsed")
 		}
 		po.ExpireAt = tm
-	} else if v = q.Get("expire-in"); v != "" {
-		d, err := time.ParseDuration(v)
-		if err != nil {
-			return errors.Wrap(err, "expire-in cannot be parsed")
-		}
-		if d < time.Second {
-			return errors.New("expire-in duration too short")
-		}
-		po.ExpireAt = time.Now().Add(d)
+	} else if expireIn > 0 {
+		po.ExpireAt = time.Now().Add(expireIn)
 	}
 
 	po.Metadata = make(map[string]string)
